@@ -264,3 +264,45 @@ func TestC20(t *testing.T) {
 	runSimCheck(t, "C20", "stage cleaning histories (E-HIST)", files, c20Alphabet(files, vh.Thorough()), c20Check, depth,
 		fmt.Sprintf("all histories up to length %d over: file a (2 parts) in two versions, file d/b (1 part, predecessor a, in a sub-directory); parts received up to twice, one corrupted part, one part cut short (leaves a stray partial), clock +12 h / +25 h (x2), CleanNow (x2), Prune(0) or Prune(1 h), cache ageing, orderly restart; the staging tree is compared across every cleaning, pruning and clock step, and after a step that removed something the harness sends exactly the unacknowledged parts and expects delivery", depth))
 }
+
+// TestC20Held: cleaning while a validated version is held for its predecessor and a new
+// version of the same name is arriving.
+func TestC20Held(t *testing.T) {
+	files := []*sFile{
+		{Key: "p1", Name: "p", Data: "PPPP", Cuts: []int64{0, 4}},
+		{Key: "b1", Name: "b", Prev: "p", Data: "CCCCDD", Cuts: []int64{0, 6}},
+		{Key: "b2", Name: "b", Prev: "p", Data: "ccccdd", Cuts: []int64{0, 4, 6}, TimeOff: 60},
+	}
+	alphabet := func(hist []sAction) []sAction {
+		var out []sAction
+		b1done := histCount(hist, "recv", "b1", 0) > 0
+		for _, f := range files {
+			if f.Key == "b2" && !b1done {
+				continue
+			}
+			for p := 0; p < len(f.Cuts)-1; p++ {
+				if histCount(hist, "recv", f.Key, p) < 1 {
+					out = append(out, sAction{Op: "recv", F: f.Key, P: p})
+				}
+			}
+		}
+		if histCount(hist, "adv25h", "", 0) < 2 {
+			out = append(out, sAction{Op: "adv25h"})
+		}
+		if histCount(hist, "clean", "", 0) < 2 {
+			out = append(out, sAction{Op: "clean"})
+		}
+		for _, op := range []string{"restart", "prune0"} {
+			if histCount(hist, op, "", 0) < 1 {
+				out = append(out, sAction{Op: op})
+			}
+		}
+		return out
+	}
+	depth := 6
+	if vh.Thorough() {
+		depth = 8
+	}
+	runSimCheck(t, "C20", "cleaning around a held file that is superseded by a new version (E-HIST)", files, alphabet, c20Check, depth,
+		fmt.Sprintf("all histories up to length %d over: file p (1 part), file b version 1 (1 part, predecessor p) and, after it, version 2 (2 parts); every part once, clock +25 h (x2), CleanNow (x2), Prune(0), orderly restart", depth))
+}
